@@ -205,6 +205,7 @@ def generate(zoo, outdir, features=()):
     r_arms = "".join("        %d => r.read::<T%d>().map(|x| to_T%d(&x)),\n" % (i, i, i) for i in idx)
     tw_arms = "".join("        %d => from_T%d(v).map(|x| w.write(&x)),\n" % (i, i) for i in idx)
     pw_arms = "".join("        %d => from_T%d(v).map(|x| w.write(&x)),\n" % (i, i) for i in idx)
+    pc_arms = "".join("        %d => r.read::<T%d>().map(|_| ()),\n" % (i, i) for i in idx)
     pr_arms = "".join("        %d => r.read::<T%d>().map(|x| to_T%d(&x)),\n" % (i, i, i) for i in idx)
     rs = ("// @generated by tools/zoogen.py from the TLA+ zoo - do not edit\n#![allow(unused, clippy::all)]\n"
           "use asn1rs::prelude::*;\nuse asn1rs::descriptor::bitstring::BitVec;\nuse serde_json::{json, Value};\nuse vharness::glue::*;\n\n"
@@ -219,8 +220,10 @@ def generate(zoo, outdir, features=()):
           "        _ => panic!(\"no such zoo type\"),\n    }\n}\n\n"
           "pub fn pread(ti: usize, r: &mut ProtobufReader<'_>) -> Result<Value, asn1rs::protocol::protobuf::Error> {\n    match ti {\n" + pr_arms +
           "        _ => panic!(\"no such zoo type\"),\n    }\n}\n\n"
+          "pub fn pcheck(ti: usize, r: &mut ProtobufReader<'_>) -> Result<(), asn1rs::protocol::protobuf::Error> {\n    match ti {\n" + pc_arms +
+          "        _ => panic!(\"no such zoo type\"),\n    }\n}\n\n"
           "pub const TYPES: &[usize] = &[" + ", ".join(str(i) for i in idx) + "];\n\n"
-          "fn main() {\n    vharness::zoo::main(vharness::zoo::Api { write, read, twrite, pwrite, pread, types: TYPES });\n}\n")
+          "fn main() {\n    vharness::zoo::main(vharness::zoo::Api { write, read, twrite, pwrite, pread, pcheck, types: TYPES });\n}\n")
     main = os.path.join(outdir, "src", "main.rs")
     old = open(main).read() if os.path.exists(main) else None
     if old != rs:
